@@ -1,0 +1,39 @@
+//go:build verif
+
+package fsnotify
+
+// Hooks for the verification harness in /verif. Compiled only with the
+// "verif" build tag; nothing here changes behaviour of the package.
+
+// The four unexported unportable operations.
+const (
+	VerifOpOpen       = xUnportableOpen
+	VerifOpRead       = xUnportableRead
+	VerifOpCloseWrite = xUnportableCloseWrite
+	VerifOpCloseRead  = xUnportableCloseRead
+)
+
+// VerifMakeEvent builds an Event including the unexported renamedFrom field.
+func VerifMakeEvent(name, renamedFrom string, op Op) Event {
+	return Event{Name: name, Op: op, renamedFrom: renamedFrom}
+}
+
+// VerifRenamedFrom returns the unexported renamedFrom field.
+func VerifRenamedFrom(e Event) string { return e.renamedFrom }
+
+// VerifWithOps exposes the unexported withOps option.
+func VerifWithOps(op Op) addOpt { return withOps(op) }
+
+// VerifWithNoFollow exposes the unexported withNoFollow option.
+func VerifWithNoFollow() addOpt { return withNoFollow() }
+
+// VerifSetRecurse sets the unexported enableRecurse switch and returns the
+// previous value.
+func VerifSetRecurse(on bool) bool {
+	old := enableRecurse
+	enableRecurse = on
+	return old
+}
+
+// VerifSupports exposes Watcher.xSupports.
+func VerifSupports(w *Watcher, op Op) bool { return w.xSupports(op) }
